@@ -442,6 +442,7 @@ class Exec(object):
             self.assume(p, Implies(Not(Select(map_dom(m), k.z)), list_len(cur) == 0))
             self.assume(p, list_len(cur) >= 0)
             return cur
+        if dflt == 'zero' and m.t.args[0] == KEY2: return SV(REGEXP, Select(T.relabel(map_dom(m), map_val(m)), k.z))      # named total view (usable as a trigger)
         return SV(m.t.args[1], If(Select(map_dom(m), k.z), Select(map_val(m), k.z), self.dflt_value(m.t).z))
 
     def dflt_value(self, mt):
@@ -1488,6 +1489,8 @@ class Exec(object):
     def s_For(self, p, st):
         n, L = self.loop_contract(st)
         self.before_loop(p, n, L)
+        for gn, src in (L.get('entry_snapshot') or {}).items():      # ghost constants: the value of a spec term when the loop is entered
+            p.ghost[gn] = self.spec_term(p, src)
         it = self.iterable(p, st.iter)
         kind = it[0]
         mod = assigned_names(st.body) | assigned_names([ast.Assign(targets=[st.target], value=ast.Constant(value=0))])
